@@ -242,5 +242,21 @@ CHECKS["C20"] = {
     "level_note": "In-process layers construct fresh cobra commands per case; the binary layer uses real loopback sockets and wall-clock waits as generous guards (a guard hit is inconclusive, never a violation).",
 }
 
+CHECKS["C02"] = {
+    "level": "exploration",
+    "rule": "1-3 successive redeploys of a running service (1-3 healthy targets each) with 1-6 client requests (service times 0-300 ms); "
+            "every actor parks at the named program points (request: routed/entry, after the pause gate, claimed; deploy: before the table "
+            "swap, before the drain; optionally the probe goroutine between state change and rotation update) and a controller, at each "
+            "quiescent instant, draws who runs next / which request or deploy starts / a clock step from 5-60 generated choices "
+            "(uniform or priority-based); oracle: every request ends 200 with its own echo from a target of a set that was current "
+            "during its lifetime, never a proxy error. Cases steer around the listed known-finding shape in ~85% of runs (counted), "
+            "the rest run free and hits of the listed signature are counted. Non-trivial = a request whose lifetime contains a table "
+            "swap or a drain start. Distinct by plan hash.",
+    "layers": [L("TestVF_C02", 1500, 20000, qenv={"GOMAXPROCS": "2"}, tenv={"GOMAXPROCS": "2"})],
+    "technique": "schedule exploration by property-based testing (rapid): interleavings are generated data (recorded choices at named program points), shrunk and replayed",
+    "level_text": "Bounded random exploration of interleavings at the granularity of the hook points (about 3 per request, 2 per deploy, 1 per probe completion).",
+    "level_note": "Interleavings inside lock-protected regions or between two statements without a hook are not reached; trusts synctest and the harness world.",
+}
+
 ALL_IDS = ["C%02d" % i for i in range(1, 21)]
 NOT_APPLICABLE = {pid: "check not built yet (work in progress; see DESIGN.md section 8 for the order of work)" for pid in ALL_IDS if pid not in CHECKS}
